@@ -53,6 +53,24 @@ func stallCases() []harness.Case {
 			c.Outcome(fmt.Sprintf("stall|slow-init|%s|%v", op, r.Calls))
 		}})
 	}
+	for _, op := range []string{"keygen", "sign"} {
+		op := op
+		cases = append(cases, harness.Case{ID: "stall/short-deadlines/" + op, Run: func(c *harness.C) {
+			c.Exec("[stall/short-deadlines] " + op)
+			var calls []stalllib.Call
+			if rec := c.Bubble(func() { calls = stalllib.ShortDeadlines(op) }); rec != nil && !harness.IsLeakPanic(rec) {
+				panic(rec)
+			}
+			c.Add("executions", len(calls))
+			for i, cl := range calls {
+				if !cl.Returned || cl.Err == nil {
+					c.Violation("returns-by-deadline", "c11-short-deadline:"+op, fmt.Sprintf("%s with deadline no. %d of the list (already passed / about to pass), nobody answering: the call had %s half a minute later", op, i, describe(cl)), map[string]interface{}{"stall": "short-deadlines", "op": op})
+					break
+				}
+			}
+			c.Outcome(fmt.Sprintf("stall|short-deadlines|%s|%d", op, len(calls)))
+		}})
+	}
 	return cases
 }
 
